@@ -174,6 +174,30 @@ def run(facts, R):
                 "the guard handed to the wait does not come from self.inner.lock() / a previous wait: %s" % why, t.get("span"),
                 "guard originates from self.inner.lock() or the previous wait")
 
+    # ---- (2b) a credit-freeing resume frees the credit: an accepted resume at `last` with acked < last <= sent (the trailing
+    # edge `last == sent` included - the receiver has everything and the whole window is free) must store acked_offset := last
+    # before it notifies; otherwise the producer wakes, re-tests unchanged offsets and parks again until its deadline.  Every
+    # accepting path either crosses the store or lies behind an edge that says `last <= acked` or `last > sent`.
+    from rules.common import cmp_facts
+    rr = facts.body(TC + "::request_resume")
+    rsym = Sym(rr)
+
+    def _fld(e, f):
+        return isinstance(e, tuple) and e and e[0] == "field" and e[2] == f
+    st_pts = [(w["bb"], w["idx"]) for w in field_writes(facts, INNER, "acked_offset") if w["body"] is rr and w["kind"] == "store"]
+    skip_pts = []
+    for x in sorted(rr.live_blocks()):
+        for (o, a, b2) in cmp_facts(facts_at(rr, rsym, facts, x)):
+            if (o == "Le" and a[0] == "arg" and _fld(b2, "acked_offset")) or (o == "Lt" and _fld(a, "sent_offset") and b2[0] == "arg"):
+                skip_pts.append((x, 0))
+    err_pts = [(i, j) for i, j, _ in blocks_assigning_variant(rr, "std::result::Result", "Err")]
+    err_pts += [term_pt(rr, i) for i, t in rr.calls() if t["callee"]["name"] == "from_residual"]
+    w = must_cross(rr, [(0, 0)], return_points(rr), st_pts + skip_pts, after_start=False, stop=err_pts)
+    R.check(bool(st_pts) and w is None, "notify-after-enabling-write", rr.path, "an accepted resume inside (acked, sent] releases its credit",
+            "request_resume can accept a resume without storing acked_offset on a path not known to have last <= acked or last > sent (e.g. the trailing edge "
+            "last == sent): the waiting producer is woken but finds no credit and sleeps on until its deadline", rr.span,
+            "store crossed, or edge last<=acked / last>sent", path=w)
+
     # ---- (3) notify after enabling write ---------------------------------------------------------
     R.note("derived predicate fields: " + ", ".join(sorted(predicate_fields)))
     for need in ("cancelled", "acked_offset", "sent_offset", "pending_resume"):
